@@ -12,6 +12,11 @@
  */
 #ifndef VERIF_ALLOCWRAP_H
 #define VERIF_ALLOCWRAP_H
+#ifndef _GNU_SOURCE
+#define _GNU_SOURCE
+#endif
+#include <stdio.h>
+#include <stdarg.h>
 #include <stdlib.h>
 #include <string.h>
 #include <errno.h>
@@ -57,6 +62,26 @@ char *vf_strdup(const char *s) {
     char *p = strdup(s);
     if (p) aw_live++;
     return p;
+}
+/* further libc entry points that hand out a malloc'ed block (a rewrite of the library may use them:
+ * counted like the others, so that the ledger does not depend on WHICH allocating call was used) */
+char *vf_strndup(const char *s, size_t n) {
+    if (aw_should_fail()) return NULL;
+    char *p = strndup(s, n);
+    if (p) aw_live++;
+    return p;
+}
+int vf_vasprintf(char **out, const char *fmt, va_list ap) {
+    if (aw_should_fail()) { *out = NULL; return -1; }
+    int r = vasprintf(out, fmt, ap);
+    if (r >= 0 && *out) aw_live++;
+    return r;
+}
+int vf_asprintf(char **out, const char *fmt, ...) {
+    va_list ap; va_start(ap, fmt);
+    int r = vf_vasprintf(out, fmt, ap);
+    va_end(ap);
+    return r;
 }
 void vf_free(void *p) {
     if (p) aw_live--;
